@@ -12,7 +12,10 @@ import tempfile
 
 import textx.model as tm
 import textx.scoping.providers as sp
+import textx.registration as reg
 from textx import metamodel_from_str
+from textx.registration import LanguageDesc, register_language
+from textx.scoping import ModelRepository
 from textx.exceptions import TextXError
 from textx.model import get_model
 from textx.model_params import ModelParams
@@ -37,6 +40,7 @@ glob.glob = _sorted_glob          # directory order is not part of the property
 
 REC = {"slots": None}
 CREATED = {}                      # id(model) -> (op index, object kept alive)
+MMS = []                          # metamodels of the current case: 0 = entry metamodel, k = registered language k
 _orig_pt2og = tm.parse_tree_to_objgraph
 
 
@@ -76,8 +80,11 @@ def rel(path, T):
 
 def desc(m, T):
     prim = isinstance(m, (str, int, float, bool))
+    mm = None
+    if not prim:
+        mm = next((k for k, x in enumerate(MMS) if x is getattr(m, "_tx_metamodel", None)), "?")
     return {"prim": prim, "file": None if prim else rel(getattr(m, "_tx_filename", None), T),
-            "op": CREATED.get(id(m), (None,))[0], "params": params_of(m, T)}
+            "op": CREATED.get(id(m), (None,))[0], "params": params_of(m, T), "mm": mm}
 
 
 def value(spec, T):
@@ -88,9 +95,9 @@ def value(spec, T):
     return spec
 
 
-def build_mm(case, T, seen):
+def build_one(case, T, seen, adds, grepo):
     prov = case["prov"]
-    mm = metamodel_from_str(GRAMMAR % ("|ID|+m:items" if prov == "rrel" else ""), global_repository=bool(case["grepo"]))
+    mm = metamodel_from_str(GRAMMAR % ("|ID|+m:items" if prov == "rrel" else ""), global_repository=bool(grepo))
     sps = [os.path.join(T, d) for d in case.get("search_path") or []]
     pats = [p.replace("{T}", T) for p in case.get("patterns") or []]
     p = None
@@ -113,17 +120,70 @@ def build_mm(case, T, seen):
         m = get_model(obj)
         seen.append([rel(m._tx_filename, T), params_of(m, T)])
     mm.register_obj_processors({"Item": item_proc})
-    adds = []
-    for name in case["adds"]:
+    res = []
+    for name in adds:
         try:
             mm.model_param_defs.add(name, "parameter " + name)
-            adds.append({"ok": True})
+            res.append({"ok": True})
         except Exception as ex:
-            adds.append({"ok": False, "exc": type(ex).__name__, "msg": str(ex)})
-    return mm, adds
+            res.append({"ok": False, "exc": type(ex).__name__, "msg": str(ex)})
+    return mm, res, p
 
 
-def run_op(mm, op, k, T, seen):
+def build_mm(case, T, seen):
+    """The entry metamodel (index 0) and, in a multi-language scenario, one more metamodel per registered language
+    (same grammar and provider kind, own parameter definitions, no global repository); language 0 = the entry
+    metamodel for *.m, language k for *.n<k>."""
+    del MMS[:]
+    reg.clear_language_registrations()
+    mm, adds, prov = build_one(case, T, seen, case["adds"], case["grepo"])
+    MMS.append(mm)
+    n = case.get("nlangs") or 0
+    if n:
+        register_language(LanguageDesc("c27l0", pattern="*.m", metamodel=mm))
+        for k in range(1, n):
+            mk, _, _ = build_one(case, T, seen, case["lang_adds"][k - 1], False)
+            MMS.append(mk)
+            register_language(LanguageDesc("c27l%d" % k, pattern="*.n%d" % k, metamodel=mk))
+    return mm, adds, prov
+
+
+def run_repo_op(prov, op, k, T, seen):
+    """GlobalRepo.load_models_in_model_repo: returns a repository, not a model."""
+    kw = {}
+    for key, spec in op["kw"]:
+        kw[key] = value(spec, T)
+    del seen[:]
+    slots = REC["slots"] = []
+    out = {}
+    try:
+        repo = prov.load_models_in_model_repo(**kw)
+        for x in slots:
+            if x is not None and not isinstance(x, (str, int, float, bool)) and id(x) not in CREATED:
+                CREATED[id(x)] = (k, x)
+        out["kind"] = "repo"
+        out["new"] = [desc(x, T) for x in slots]
+        out["repo"] = [[rel(key, T), desc(x, T)] for key, x in repo.all_models.filename_to_model.items() if os.path.isabs(key)]
+    except TypeError as ex:
+        out["kind"] = "typeerror" if "multiple values" in str(ex) else "err"
+        out["exc"] = "TypeError: " + str(ex).replace(T, "{T}")
+    except TextXError as ex:
+        mt = re.match(r"^unknown parameter (.*) \((.*)\)$", getattr(ex, "message", str(ex)), re.S)
+        out["kind"] = "rejected" if mt else "err"
+        if mt:
+            out["key"], out["source"] = mt.group(1), mt.group(2)
+        out["exc"] = type(ex).__name__ + ": " + str(ex).replace(T, "{T}")
+    except Exception as ex:  # noqa
+        out["kind"] = "err"
+        out["exc"] = type(ex).__name__ + ": " + str(ex).replace(T, "{T}")
+    finally:
+        REC["slots"] = None
+    out["seen"] = [list(x) for x in seen]
+    out["entered"] = len(slots)
+    return out
+
+
+def run_op(mm, op, k, T, seen, keep):
     kw = {}
     for key, spec in op["kw"]:
         kw[key] = value(spec, T)
@@ -147,6 +207,7 @@ def run_op(mm, op, k, T, seen):
                 CREATED[id(x)] = (k, x)
         for x in slots:      # primitive models have no stable identity: report them by position only
             pass
+        keep.append(m)
         out["kind"] = "loaded"
         out["result"] = desc(m, T)
         out["result_is_new"] = any(x is m for x in slots)
@@ -206,13 +267,25 @@ def run_case(case):
         os.chdir(os.path.join(T, "cwd"))
         seen = []
         CREATED.clear()
-        mm, adds = build_mm(case, T, seen)
-        outs = [run_op(mm, op, k, T, seen) for k, op in enumerate(case["ops"])]
+        mm, adds, prov = build_mm(case, T, seen)
+        outs = []
+        keep = []
+        for k, op in enumerate(case["ops"]):
+            o = run_repo_op(prov, op, k, T, seen) if op["entry"] == "repo" else run_op(mm, op, k, T, seen, keep)
+            if k == 0 and case.get("builtin") and o["kind"] == "loaded":
+                # the model loaded by operation 0 becomes a builtin model of the entry metamodel
+                mm.builtin_models = ModelRepository()
+                mm.builtin_models.add_model(keep[-1])
+            if case.get("builtin") and keep:
+                o["builtin"] = desc(keep[0], T)
+            outs.append(o)
         return {"adds": adds, "ops": outs,
                 "sig_str": _argnames(type(mm).model_from_str), "sig_file": _argnames(type(mm).model_from_file),
+                "sig_repo": _argnames(sp.GlobalRepo.load_models_in_model_repo),
                 "builtin": list(metamodel_from_str("M: 'x';").model_param_defs)}
     finally:
         os.chdir(cwd)
+        reg.clear_language_registrations()
         shutil.rmtree(T, ignore_errors=True)
 
 
